@@ -1,6 +1,7 @@
 import PW.Proofs.LayoutLemmas
 import PW.Proofs.RoutingLemmas
 import PW.Proofs.RoutingLemmas2
+import PW.Proofs.KronFactor
 /-!
 # C20 — product spaces are joined only when needed; bystander blocks are untouched
 
@@ -68,6 +69,15 @@ the envelope block and subsystem 3 and leaves the others -/
 example : combine [⟨.own, [0]⟩, ⟨.env, [1, 2]⟩, ⟨.own, [3]⟩, ⟨.ps 0, [4, 5]⟩] 0 [1, 3]
     = [⟨.own, [0]⟩, ⟨.ps 0, [4, 5]⟩, ⟨.ps 0, [1, 2, 3]⟩] := by decide
 
+/-- at the level of the physical state: actions on two different subsystems commute, so an action on
+one of them can neither depend on nor disturb what is done to the other (every space, all positions) -/
+theorem actions_on_different_subsystems_commute {R : Type} [CommRing R] [StarRing R] (dims : List Nat) (p q : Nat)
+    (hp : p < dims.length) (hq : q < dims.length) (hne : p ≠ q) (A B ρ : PW.Tensor R) (r c : List Nat)
+    (hr : r.length = dims.length) (hc : c.length = dims.length) :
+    PW.Spec.applyOn dims [p] A (PW.Spec.applyOn dims [q] B ρ) (r ++ c)
+      = PW.Spec.applyOn dims [q] B (PW.Spec.applyOn dims [p] A ρ) (r ++ c) :=
+  PW.Spec.applyOn_comm dims p q hp hq hne A B ρ r c hr hc
+
 end PW.Props.C20
 
 #print axioms PW.Props.C20.bystander_untouched_by_combine
@@ -84,3 +94,4 @@ end PW.Props.C20
 #print axioms PW.Props.C20.bystander_untouched_by_povm_routing
 #print axioms PW.Props.C20.bystander_untouched_by_resize
 #print axioms PW.Props.C20.bystander_untouched_by_measurement
+#print axioms PW.Props.C20.actions_on_different_subsystems_commute
